@@ -45,6 +45,7 @@ type Op struct {
 	A    int   `json:"a,omitempty"`    // advance kind / timer selector
 	Ms   int   `json:"ms,omitempty"`
 	Hold bool  `json:"hold,omitempty"` // fired callbacks are held (fired-but-not-run window)
+	Dup  int   `json:"dup,omitempty"`  // >0: the list passed repeats entry (Dup-1)%len right after itself (same set, same order)
 	N    int   `json:"n,omitempty"`    // concurrent mode: steps after starting
 	ID   int   `json:"id,omitempty"`   // stable identity
 }
@@ -59,6 +60,7 @@ type Plan struct {
 	// Alias: the application keeps ONE endpoint slice, edits it in place and passes
 	// it again; Scribble n > 0: it overwrites that slice after every n-th call
 	Alias    bool `json:"alias,omitempty"`
+	InitDup  int  `json:"init_dup,omitempty"`
 	Scribble int  `json:"scribble,omitempty"`
 	Ops      []Op `json:"ops"`
 }
@@ -92,6 +94,9 @@ func randList(r *rand.Rand, allowEmpty bool) []int {
 func Generate(r *rand.Rand, profile string, concurrent bool) *Plan {
 	p := &Plan{Profile: profile, Concurrent: concurrent}
 	p.Init = randList(r, false)
+	if !concurrent && r.IntN(10) == 0 {
+		p.InitDup = 1 + r.IntN(5)
+	}
 	rs := []int{0, 0, 10, 20, 50}
 	ds := []int{0, 10, 20, 40, 70}
 	p.RMs = rs[r.IntN(len(rs))]
@@ -131,6 +136,9 @@ func Generate(r *rand.Rand, profile string, concurrent bool) *Plan {
 		case x < 65:
 			o.K = OpSetList
 			o.List = randList(r, true)
+			if !concurrent && r.IntN(6) == 0 {
+				o.Dup = 1 + r.IntN(5)
+			}
 		case x < 88:
 			o.K = OpAdvance
 			o.A = r.IntN(5)
@@ -379,6 +387,20 @@ type sim struct {
 	hintOp    int
 	hintN     uint64
 	pub       int32
+}
+
+// withDup returns list with entry (dup-1)%len repeated right after itself: the
+// same endpoints in the same priority order, written with a repeated name.
+//
+//go:norace
+func withDup(list []string, dup int) []string {
+	if dup <= 0 || len(list) == 0 {
+		return list
+	}
+	i := (dup - 1) % len(list)
+	out := append([]string{}, list[:i+1]...)
+	out = append(out, list[i])
+	return append(out, list[i+1:]...)
 }
 
 //go:norace
@@ -663,7 +685,7 @@ func (s *sim) run(src *simkit.Source, logOn bool) {
 	var err error
 	s.call("New", func() {
 		s.me, err = multiendpoint.NewMultiEndpoint(&multiendpoint.MultiEndpointOptions{
-			Endpoints: s.callerList(list), RecoveryTimeout: mo.r, SwitchingDelay: mo.d})
+			Endpoints: s.callerList(withDup(list, p.InitDup)), RecoveryTimeout: mo.r, SwitchingDelay: mo.d})
 	})
 	s.scribble()
 	if s.stop {
@@ -731,7 +753,10 @@ func (s *sim) exec(o Op) {
 	case OpSetList:
 		list := names(o.List)
 		var err error
-		arg := s.callerList(list)
+		arg := s.callerList(withDup(list, o.Dup))
+		if o.Dup > 0 && len(list) > 0 {
+			s.res.Count("fault:list_with_repeated_name", 1)
+		}
 		s.call("SetEndpoints", func() { err = s.me.SetEndpoints(arg) })
 		s.scribble()
 		if s.stop {
